@@ -150,7 +150,7 @@ theorem insertAfterTail_core {f : Forest} {c : Nat} {t : HTree} {q : Nat} {vq : 
       -- merged into the reference node (the earlier one)
       have hr2 : X.addConsolidate c (some kr.handle) (X.nextSibling kr.handle) =
           ((X.setValue kr.handle (.text (ta ++ tc))).spliceOut c, true) :=
-        Forest.addConsolidate_prev hc (hXtext.trans htd) ((Forest.textOf_of_get hkr_get).trans hta) _
+        Forest.addConsolidate_prev hc (hXtext.trans htd) ((Forest.textOf_of_get hkr_get).trans hta) _ hrc
       have hkrt : kr.value.isText = true := isText_iff_textData.2 ⟨ta, hta⟩
       have hflow := F.flow2 rfl kr.handle (.text (ta ++ tc)) ⟨kr, by simp, rfl⟩ hrc hleaf_t (by
         intro k' hk' e
@@ -238,7 +238,7 @@ theorem insertAfterTail_core {f : Forest} {c : Nat} {t : HTree} {q : Nat} {vq : 
           have hr2 : X.addConsolidate c (some kr.handle) (X.nextSibling kr.handle) =
               ((X.setValue kb.handle (.text (tc ++ tb))).spliceOut c, true) := by
             rw [hnext, hnx]
-            exact Forest.addConsolidate_next hc (hXtext.trans htd) hprev ((Forest.textOf_of_get hkb_get).trans htb)
+            exact Forest.addConsolidate_next hc (hXtext.trans htd) hprev ((Forest.textOf_of_get hkb_get).trans htb) hkbc
           have hflow := F.flow2 rfl kb.handle (.text (tc ++ tb)) ⟨kb, by simp, rfl⟩ hkbc hleaf_t (by
             intro k' hk' e
             have ndL : (handlesList ((A ++ [kr]) ++ kb :: B2)).Nodup := by
